@@ -22,6 +22,8 @@ pub enum Arg {
     H,
     HPlus(u64),
     K,
+    /// below the heap base: unspecified by the property, crash-freedom only
+    Below(u64),
 }
 
 #[derive(Clone, Debug, PartialEq, Serialize, Deserialize)]
@@ -163,6 +165,8 @@ impl Spec for C13 {
             Op::Brk(Arg::HPlus(0x1001)),
             Op::Brk(Arg::HPlus(0x3000)),
             Op::Brk(Arg::K),
+            Op::Brk(Arg::Below(0x10)),
+            Op::Brk(Arg::Below(u64::MAX)),
         ];
         for a in [Addr::H, Addr::H1, Addr::KMinus1, Addr::Mid] {
             v.push(Op::Store(a.clone()));
@@ -181,7 +185,15 @@ impl Spec for C13 {
                     Arg::H => m.h.unwrap_or(0),
                     Arg::HPlus(d) => m.h.unwrap_or(0) + d,
                     Arg::K => m.k,
+                    Arg::Below(d) => m.h.unwrap_or(0).saturating_sub(*d).max(1),
                 };
+                if let Arg::Below(_) = arg {
+                    // crash-freedom only; the model cannot follow, so nothing is explored below
+                    return match guest(ax, OFF_SYSCALL, 12, p, 0) {
+                        StepOut::Panic(pn) => Err(div(format!("brk|panic@{}|below-base", pn.tag()), format!("brk({p:#x}) below the heap base {:#x} panicked: {}", m.h.unwrap_or(0), crate::emu::first_line(&pn.msg)))),
+                        _ => Ok(None),
+                    };
+                }
                 if p == 0 && !matches!(arg, Arg::Zero) {
                     return Ok(None);
                 }
